@@ -139,6 +139,17 @@ CHECKS = {
         "note": "Trusted: Python ast, E1 resolver, numpy fancy indexing A[idx][k] = A[idx[k]], scipy.spatial.Delaunay.",
         "technique": "static analysis: abstract evaluation of kernels to polynomial normal forms + canonical-form equality (sibling agreement between the dense and unique encodings); running-offset typestate; call-site wiring",
     },
+    "C07": {
+        "text": "Decides, for all meshes, coefficients and adapt images, the structural clauses behind symmetric PSD regularization with the stated quadratic form: each neighbour / split util assembles its matrix by EXACTLY the reference set of "
+                "updates (canonical forms, loop variables renamed by depth): constant and constant-zeroth have the Laplacian shape (+c on [i,i], -c on [i,n] per neighbour with the same c = coefficient^2; 1e-8 ridge once per row), so x^T H x = "
+                "c * sum (x_i - x_j)^2 + ridge GIVEN symmetric neighbour lists; the weighted scheme applies the four symmetric updates with w_n^2 (symmetric by construction, pair weight w_i^2 + w_j^2 over a symmetric list); the split scheme mirrors every "
+                "update [a,b] / [b,a] with one value and halves the doubly counted diagonal once; zeros initially and the right size; kernel covariances add k(|p_i - p_j|) over all pairs on top of the diagonal ridge and the matrix is coefficient * inv(cov) "
+                "of the object's own mesh points; adaptive weights are (inner*s + outer*(1-s))^2 and each scheme feeds its util with its own coefficients, the object's own neighbours / split tables (never cached, since reg_split_from mutates them) and its own "
+                "reported weights; an object without regularization contributes np.zeros((params, params)); blocks are assembled by scipy block_diag over linear_obj_list in order, unfiltered. Not decided: positive-definiteness of coefficient * inv(cov), "
+                "determinants, symmetry of the neighbour lists themselves (C06 declined).",
+        "note": "Trusted: Python ast, E1 resolver, scipy.linalg.block_diag, np.linalg.inv. Quadratic-form statements are conditional on symmetric neighbour lists.",
+        "technique": "static analysis: abstract evaluation of kernels + set equality of canonical update forms (update-shape rule); scheme-to-util wiring; no-cache side condition; block assembly rule",
+    },
 }
 
 NOT_APPLICABLE = {f"C{n:02d}": PENDING for n in range(1, 21) if f"C{n:02d}" not in CHECKS}
